@@ -1548,7 +1548,8 @@ def element_edits(ctx):
             if not hit:
                 continue
             n += 1
-            allow = [a for a in ELEMENT_EDIT_ALLOWED if a[0] == base and a[1] in args and a[2] in p]
+            # (the reviewed completion passes may be spelled `for r in &mut v` / `v.iter_mut()` / `for i in 0..v.len() { v[i] .. }`)
+            allow = [a for a in ELEMENT_EDIT_ALLOWED if a[0] == base and a[1] in args and (a[2] in p or re.search(r'IterMut|iter_mut|index_mut', p))]
             ctx.ob(SEQ_PROPS.get(hit[0], ['C09']) + ['C17'], 'R-SEQ', 'element-edit|%s|%s|%s' % (short(base), short(p), hit[0].split('::')[-1]), bool(allow),
                    ('reviewed: ' + allow[0][3]) if allow else 'an element of a sequence of %s is edited in place by %s after it was built' % (hit[0], short(p)), loc(c['span']))
     ctx.ob(['C17'], 'R-SEQ', 'element-edit|census', n >= 2, 'in-place edits of elements of order-bearing sequences examined: %d (floor 2: the two reviewed completion passes)' % n, nontrivial=False)
